@@ -30,6 +30,15 @@ def random_ramp(rng, n, lo, hi, kind):
     return rng.uniform(lo, hi, n)
 
 
+def newton_failure(exc):
+    """Only Newton's own two messages count as "did not converge": any other ValueError (a shape error of numpy, ...) is an error of the
+    case and must not be booked as a failed substep."""
+    msg = str(exc)
+    if "NaN" in msg or "not converged" in msg:
+        return True
+    raise exc
+
+
 def case_history(rep):
     def fn(run):
         import felupe as fem
@@ -41,6 +50,18 @@ def case_history(rep):
                               ("planestrain", "quad8", "OgdenRoxburgh")][rep % 7]
             extras = [(), ("pressure",), ("pointload",), ("force",), ("pressure", "force")][(rep // 7) % 5] if fam in ("hexahedron", "quad") else ()
             field, bounds, lc, items, mesh = C07.build(rng, kind, fam, mat, extras)
+            x0_other = None
+            if rep % 8 == 6:
+                # a start container of its own (same layout as the items' one): the boundary conditions of the steps live on it
+                import copy
+                x0_other = field.copy()
+                rebound = {}
+                for name, b_ in bounds.items():
+                    kf = [i for i, f_ in enumerate(field.fields) if f_ is b_.field][0]
+                    nb_ = copy.copy(b_)
+                    nb_.field = x0_other.fields[kf]
+                    rebound[name] = nb_
+                bounds = rebound
             L0 = float(mesh.points[:, 0].max())
             nsteps = int(rng.integers(1, 4))
             inject = rep % 3 == 1
@@ -100,14 +121,15 @@ def case_history(rep):
                 kw.update(tol=1e-7, maxiter=5)
             if use_x0:
                 # the documented start field: the items' own container, or another container of the same layout (linked by the job)
-                kw["x0"] = field.copy() if rep % 8 == 6 else field
-                if rep % 8 == 6:
-                    run.units["trace:job-x0-distinct"] += 1
+                kw["x0"] = x0_other if rep % 8 == 6 else field
             raised = None
             try:
                 job.evaluate(**kw)
             except ValueError as e:
+                newton_failure(e)
                 raised = e
+            if use_x0 and rep % 8 == 6 and cb_log:
+                run.units["trace:job-x0-distinct"] += 1  # at least one substep converged from the foreign start container
             label = "history %d (%s/%s/%s, %d steps, extras=%s%s)" % (rep, kind, fam, mat, nsteps, "+".join(extras), ", injected failure" if inject else "")
             check_trace(run, mon.trace, label)
             nyield = sum(1 for e in mon.trace.events if e["kind"] == "step.yield")
@@ -411,13 +433,16 @@ def case_fe_history(rep):
                     # maximum of the base energy at the converged states (never below the state committed before)
                     run.compare(mon, "body=%s clause=committed-state-monotone" % which, max(0.0, float((sv - new).max())) / max(maxabs(new), 1e-300), 1e-12,
                                 "the stored maximum energy decreased over a converged substep", unit="fe-history:" + which, config=("fe-history", which))
-                else:
+                if True:
+                    # (the condensed body hands the plain deformation gradient to the law: the strict clause holds for it too; "monotone" alone
+                    # would be met by a body that never commits - third audit)
                     run.compare(mon, "body=%s clause=committed-state-is-law-of-converged-state" % which, maxabs(new - trial) / scale, tol,
                                 "the state committed after a converged substep is not what the law returns for the converged deformation and the previous state",
                                 unit="fe-history:" + which, config=("fe-history", which))
                 sv = new.copy()
                 nconv += 1
-        except ValueError:
+        except ValueError as e_:
+            newton_failure(e_)
             raised = True
         if which.startswith("plasticity") and not raised and nconv == len(moves):
             # a plastic jump that cannot converge within one iteration
@@ -426,7 +451,8 @@ def case_fe_history(rep):
             e0 = fem.dof.apply(field, b, d0)
             try:
                 fem.newtonrhapson(items=[body], dof0=d0, dof1=d1, ext0=e0, maxiter=1, tol=1e-12, verbose=False)
-            except ValueError:
+            except ValueError as e_:
+                newton_failure(e_)
                 raised, bad = True, nconv
         after = np.asarray(body.results.statevars, float)
         if raised and nconv == bad:
